@@ -16,6 +16,7 @@ from ..core import AnalysisError, Loc, Report, Source, norm
 from ..heapzone import analyse_heap
 from ..orderings import CELLS, cmp_holds, lex_expected
 from ..normalize import canon, flat
+from ..resolve import Resolver
 from ..pyfront import Program, body_without_docstring, param_names, self_attr
 from ..selftest import Edit, Patch
 from .c14 import time_comparison_table
@@ -396,13 +397,14 @@ def check_heap_scheduler(src: Source, rep: Report, unit: CUnit) -> None:
     # R6.9 the byte count that push_event compares the C return value with belongs to the C heap object: whenever a method builds a
     # new heap it must restart that count from what the new heap reports (0 before the first insert, else the last insert's return)
     bytes_attr = None
+    RP = Resolver(push)
     for n in ast.walk(push):
         if isinstance(n, ast.Compare) and len(n.ops) == 1:
             sides = [n.left, n.comparators[0]]
             names = {x.id for sd in sides for x in ast.walk(sd) if isinstance(x, ast.Name)}
             ins_vars = {t.id for a in ast.walk(push) if isinstance(a, ast.Assign) and _lib_calls(a.value, aliases, "insert")
                         for t in a.targets if isinstance(t, ast.Name)}
-            attrs_ = [self_attr(sd) for sd in sides if self_attr(sd)]
+            attrs_ = [self_attr(RP.res(sd)) for sd in sides if self_attr(RP.res(sd))]
             if names & ins_vars and attrs_:
                 bytes_attr = attrs_[0]
     heap_attr = self_attr(inserts[0].args[0]) if inserts and inserts[0].args else None
